@@ -48,6 +48,7 @@ class TypeGen:
         self.lit_conflate = False
         self.allow_self = True
         self.allow_inherit = True
+        self.allow_field_engine = True
         self.dc_config_fn = dc_config_fn
         self.mixins = mixins
         self.vgen = Gen(fam, rng)
@@ -343,6 +344,9 @@ class TypeGen:
     def dataclass(self, depth, *, mixin=None, min_required=0, config=None, nfields=None,
                   with_defaults=True, name=None):
         r = self.rng
+        if (self.allow_field_engine and self.allow_named and nfields is None and name is None and config is None
+                and with_defaults and min_required == 0 and r.random() < 0.04):
+            return self.nt_engine_dataclass(mixin)
         name = name or self.fresh("DC")
         n = nfields if nfields is not None else r.randint(1, 4)
         fields = []
@@ -370,6 +374,12 @@ class TypeGen:
                 f["dseed"] = r.getrandbits(32)
             fields.append(f)
         fields += fields_tail
+        if self.allow_field_engine:
+            # per-field NamedTuple engine (overrides Config / dialect namedtuple_as_dict for this field only)
+            for f in fields:
+                if "meta" not in f and r.random() < 0.3 and any(n[0] == "nt" for n in tast.walk(f["t"])) and self._engine_safe(f["t"]):
+                    eng = r.choice(["'as_dict'", "'as_list'"])
+                    f["meta"] = {"serialize": eng, "deserialize": eng}
         if self.allow_self and r.random() < 0.12:
             # recursive field typed Self (always defaulted so instances terminate)
             if r.random() < 0.5:
@@ -469,6 +479,54 @@ class TypeGen:
             inherited.update({f["n"]: f for f in lfs})
             bases = [lname, rname]
         return bases, redeclare(inherited, 0.3)
+
+    def nt_engine_dataclass(self, mixin=None):
+        """one point of the lattice {Config.namedtuple_as_dict unset / True} x {field engine none / as_list / as_dict}
+        with the NamedTuple at every kind of position (direct, Optional, list element, dict value, tuple member)."""
+        r = self.rng
+        nt = self.fresh("NT")
+        members = [{"n": "f0", "t": ("int",)}, {"n": "f1", "t": r.choice([("str",), ("opt", ("int",), "Optional"), ("decimal",)])}]
+        if r.random() < 0.4:
+            members[1]["dseed"] = r.getrandbits(32)
+        self.fam.add({"k": "nt", "name": nt, "fields": members, "functional": False}, self.value_maker)
+        N = ("nt", nt)
+        eng = r.choice([None, "'as_list'", "'as_dict'", "'as_list'", "'as_dict'"])
+        positions = [("d", N), ("o", ("opt", N, "Optional")), ("l", ("seq", "List", N)), ("m", ("map", "Dict", ("str",), N)),
+                     ("t", ("tuple", "Tuple", [N, ("int",)]))]
+        r.shuffle(positions)
+        fields = []
+        for n, t in positions[:r.randint(2, 5)]:
+            f = {"n": n, "t": t}
+            if eng and r.random() < 0.8:
+                f["meta"] = {"serialize": eng, "deserialize": eng}
+            fields.append(f)
+        if mixin is None:
+            mixin = r.choice(self.mixins) if r.random() < self.mixin_prob else None
+        name = self.fresh("DC")
+        d = {"k": "dc", "name": name, "bases": [], "mixin": mixin, "fields": fields}
+        cfg = dict(self.dc_config_fn(r) or {}) if self.dc_config_fn else {}
+        cfg.pop("_aliases", None)
+        cfg.pop("namedtuple_as_dict", None)
+        if r.random() < 0.5:
+            cfg["namedtuple_as_dict"] = "True"
+        if cfg:
+            d["config"] = cfg
+        self.fam.add(d, self.value_maker)
+        return ("dc", name)
+
+    def _engine_safe(self, t, _seen=None):
+        """the field's metadata travels with the spec into NamedTuple members, tuples, unions and TypedDicts (not into
+        list / dict elements); date / datetime / time members read deserialize= as THEIR engine name and reject
+        'as_dict' loudly when the class is built, so such fields get no NamedTuple engine option."""
+        seen = _seen if _seen is not None else set()
+        for n in tast.walk(t):
+            if n[0] in ("date", "datetime", "time"):
+                return False
+            if n[0] in ("nt", "td") and n[1] not in seen:
+                seen.add(n[1])
+                if not all(self._engine_safe(f["t"], seen) for f in self.fam.defs[n[1]]["fields"]):
+                    return False
+        return True
 
     def _fix_defaults(self, d):
         """unhashable defaults must be factories (dataclass rule)."""
